@@ -173,18 +173,14 @@ static int json_object_array_move_cb(struct json_object *parent, size_t idx,
                                      struct json_object *value, void *priv)
 {
 	int rc;
-	struct json_pointer_get_result *from = priv;
 	size_t len = json_object_array_length(parent);
 
 	/**
-	 * If it's the same array parent, it means that we removed
-	 * and element from it, so the length is temporarily reduced
-	 * by 1, which means that if we try to move an element to
-	 * the last position, we need to check the current length + 1
+	 * A move is a "remove" followed by an "add" (RFC 6902 section 4.4), so
+	 * the index is checked against the array as it is now, i.e. after the
+	 * element was removed from it (if it is the same array).  Moving to the
+	 * last position is index == len, which is allowed.
 	 */
-	if (parent == from->parent)
-		len++;
-
 	if (idx > len)
 	{
 		// Note: will propagate back out through json_pointer_set_with_array_cb()
